@@ -5,8 +5,10 @@ import (
 	"crypto/ed25519"
 	"errors"
 	"fmt"
+	"math/big"
 	"net/netip"
 	"reflect"
+	"regexp"
 	"strings"
 
 	"go.brendoncarroll.net/p2p"
@@ -325,7 +327,7 @@ func mutateText(g *rng.R, t []byte) []byte {
 }
 
 func runC16(r *ev.Run) {
-	r.Rule = "generated addresses of every address type path (udp, mem, ssh, identity@transport, scheme://inner nested to depth 3) are marshalled and parsed with the same swarm's parser; hostile texts are mutations of valid texts; non-trivial = address class other than IPv4-loopback with the zero id; distinct = (type path, IP class, port class, fingerprint symbol class) or (type path, hostile outcome)"
+	r.Rule = "generated addresses of every address type path (udp, mem, ssh, identity@transport, scheme://inner nested to depth 3) are marshalled and parsed with the same swarm's parser; hostile texts are mutations of valid texts (accepted ones must survive marshal+parse) and valid texts whose port is replaced by numbers around and beyond 16 bits (accepted ones must come back with that very number); non-trivial = address class other than IPv4-loopback with the zero id; distinct = (type path, IP class, port class, fingerprint symbol class) or (type path, hostile outcome)"
 	r.Assumptions = []string{
 		"multiswarm scheme names are non-empty and contain neither '://' nor newlines (not expressible in the scheme://inner grammar)",
 		"equality of parsed and original address is == on the typed value (reflect.DeepEqual) plus equality of re-marshalled text",
@@ -404,7 +406,64 @@ func runC16(r *ev.Run) {
 			}
 		}
 	}
+	c16PortBoundaries(r)
 	runC16Harvest(r, rng.New(r.Seed, "C16", "harvest"))
+}
+
+var trailingPort = regexp.MustCompile(`^(.*:)([0-9]+)$`)
+
+// c16PortBoundaries: "parsing arbitrary text either fails cleanly or yields an address that marshals back to an equivalent
+// form" for the one numeric field addresses have. A valid text whose port is replaced by a number around and beyond 16 bits
+// may be refused; if it is accepted, the port that comes back out must be that number.
+func c16PortBoundaries(r *ev.Run) {
+	if r.Batch != 0 {
+		return
+	}
+	g := rng.New(r.Seed, "C16", "ports")
+	// canonical decimal only: how a parser reads "00022" or "0x16" (decimal, octal, Go literal) is not settled by the property
+	ports := []string{"0", "1", "22", "65535", "65536", "65537", "65558", "99999", "131072", "131094", "4294967295", "4294967296", "4294967318", "18446744073709551616", "18446744073709551638"}
+	for _, k := range buildAddrKinds() {
+		caseID := "ports-" + k.name
+		if !r.Want(caseID) {
+			continue
+		}
+		for i := 0; i < 40; i++ {
+			a0, _ := k.gen(g)
+			text, terr := a0.MarshalText()
+			if terr != nil {
+				continue
+			}
+			m := trailingPort.FindSubmatch(text)
+			if m == nil {
+				continue
+			}
+			for _, pv := range ports {
+				ht := append(append([]byte{}, m[1]...), pv...)
+				r.Eval(1)
+				a, err, pan := safeParse(k.parse, ht)
+				if pan != nil {
+					r.Violate("C16/parse-panic/"+k.name, caseID, fmt.Sprintf("ParseAddr panicked: %v", pan), map[string]any{"text": fmt.Sprintf("%q", ht)})
+					continue
+				}
+				if err != nil {
+					r.NonTrivial(k.name + "/port-refused/" + pv)
+					continue
+				}
+				out, merr := a.MarshalText()
+				m2 := trailingPort.FindSubmatch(out)
+				if merr != nil || m2 == nil {
+					continue
+				}
+				in, _ := new(big.Int).SetString(pv, 10)
+				got, _ := new(big.Int).SetString(string(m2[2]), 10)
+				if in.Cmp(got) != 0 {
+					r.Violate("C16/hostile-accepted-not-equivalent/"+k.name, caseID, fmt.Sprintf("text with port %s was accepted and came back with port %s", pv, m2[2]), map[string]any{"text": fmt.Sprintf("%q", ht), "marshalled": fmt.Sprintf("%q", out)})
+					continue
+				}
+				r.NonTrivial(k.name + "/port-accepted-same/" + pv)
+			}
+		}
+	}
 }
 
 func topClass(c string) string {
